@@ -81,6 +81,14 @@ func genPassthrough(r *rand.Rand, i int) J {
 			prog = append(prog, nText(t))
 			lastText = true
 			continue
+		case c == 1 && r.Intn(3) == 0:
+			// a string literal is emitted exactly: letters, spaces and quote characters of the other kind, anywhere in it
+			q := pick(r, []string{"'", "\""})
+			var sb strings.Builder
+			for m := r.Intn(6); m >= 0; m-- {
+				sb.WriteString(pick(r, []string{q, q, "a", " ", "x y", "é", q + q}))
+			}
+			prog = append(prog, nObj(eLit(vStr(sb.String()))))
 		case c == 1:
 			prog = append(prog, J{"t": "raw", "s": bs(blockBody(r))})
 		case c == 2:
@@ -169,7 +177,46 @@ func init() {
 
 // C06: deep well-nested templates and their one-edit neighbours, as
 // token-class sequences.
+// deepNesting: one chain of blocks nested d deep, through bodies or through clauses (the inner block sits in the
+// else / when branch of the outer one) - however deep, a properly nested template is accepted
+func deepNesting(r *rand.Rand) []any {
+	d := pick(r, []int{45, 52, 70, 101, 130, 160})
+	kind := r.Intn(4)
+	toks := []any{}
+	ends := []string{}
+	for k := 0; k < d; k++ {
+		switch kind {
+		case 0: // bodies
+			b := pick(r, []string{"if", "unless", "for", "capture", "case"})
+			toks = append(toks, b)
+			if b == "case" {
+				toks = append(toks, "when")
+			}
+			ends = append(ends, "end"+b)
+		case 1: // else branches
+			toks = append(toks, "if", "text", "else")
+			ends = append(ends, "endif")
+		case 2: // when branches
+			toks = append(toks, "case", "when")
+			ends = append(ends, "endcase")
+		default: // for ... else, unless ... else alternating
+			b := []string{"for", "unless"}[k%2]
+			toks = append(toks, b, "else")
+			ends = append(ends, "end"+b)
+		}
+	}
+	toks = append(toks, "obj")
+	for k := len(ends) - 1; k >= 0; k-- {
+		toks = append(toks, ends[k])
+	}
+	return toks
+}
+
 func genNesting(r *rand.Rand, i int) J {
+	if i%50 == 7 {
+		// (the tree is not reported for these: the JSON reader of the trace checker stops at 255 levels)
+		return J{"kind": "parse", "toks": deepNesting(r), "notree": true}
+	}
 	blocks := []string{"if", "unless", "case", "for", "tablerow", "capture", "comment", "raw"}
 	var build func(depth int) []string
 	build = func(depth int) []string {
